@@ -31,6 +31,9 @@ type handle struct {
 type kind struct {
 	name  string
 	dupOf string // non-empty: only allowed directly or indirectly behind the named kind, answered in issue order
+	// anyOrder (with dupOf): the responses carry the command's tag, so the two commands are not
+	// ambiguous and the server may answer them in any order
+	anyOrder bool
 	class string // ambiguity class: at most one pending command per class ("" = none)
 	lines int    // CRLFs the client writes for the command
 	issue func(c *imapclient.Client) handle
@@ -117,7 +120,8 @@ func kinds() []kind {
 			}}
 		}},
 		{name: "FETCH 1:2", class: "fetch", lines: 1, data: []string{`* 1 FETCH (FLAGS (\Seen))`, `* 2 FETCH (FLAGS ())`}, want: "1:\\Seen;2:", issue: fetchIssue(imap.SeqSetNum(1, 2))},
-		{name: "FETCH 2:*", class: "fetch", lines: 1, data: []string{`* 2 FETCH (FLAGS ())`, `* 3 FETCH (FLAGS (\Seen))`}, want: "2:;3:\\Seen", issue: fetchIssue(func() imap.NumSet { var s imap.SeqSet; s.AddRange(2, 0); return s }())},
+		// answered in descending order (the order of FETCH responses is the server's choice)
+		{name: "FETCH 2:*", class: "fetch", lines: 1, data: []string{`* 3 FETCH (FLAGS (\Seen))`, `* 2 FETCH (FLAGS ())`}, want: "3:\\Seen;2:", issue: fetchIssue(func() imap.NumSet { var s imap.SeqSet; s.AddRange(2, 0); return s }())},
 		{name: "FETCH *", class: "fetch", lines: 1, data: []string{`* 3 FETCH (FLAGS (\Seen))`}, want: "3:\\Seen", issue: fetchIssue(imap.SeqSetNum(0))},
 		{name: "UID FETCH 5", class: "fetch", lines: 1, data: []string{`* 1 FETCH (UID 5 FLAGS (\Seen))`}, want: "1:\\Seen", issue: fetchIssue(imap.UIDSetNum(5))},
 		{name: "STORE 1", class: "fetch", lines: 1, data: []string{`* 1 FETCH (FLAGS (\Deleted))`}, want: "1:\\Deleted", issue: func(c *imapclient.Client) handle {
@@ -333,6 +337,17 @@ func kinds() []kind {
 				s := ""
 				if d != nil && d.All != nil {
 					s = d.All.String()
+				}
+				return err, s
+			}}
+		}},
+		{name: "SEARCH esearch#2", class: "search", dupOf: "UID SEARCH esearch", anyOrder: true, lines: 1, data: []string{`* ESEARCH (TAG "%T") ALL 1:2 COUNT 2`}, want: "1:2 count=2", issue: func(c *imapclient.Client) handle {
+			cmd := c.Search(&imap.SearchCriteria{}, &imap.SearchOptions{ReturnAll: true, ReturnCount: true})
+			return handle{func() (error, string) {
+				d, err := cmd.Wait()
+				s := ""
+				if d != nil && d.All != nil {
+					s = fmt.Sprintf("%s count=%d", d.All.String(), d.Count)
 				}
 				return err, s
 			}}
@@ -963,6 +978,9 @@ func sequentialPerClass(ord []int, cmds []int, ks []kind) bool {
 			if ks[cmds[i]].class == "" || ks[cmds[i]].class != ks[cmds[j]].class {
 				continue
 			}
+			if ks[cmds[j]].anyOrder && ks[cmds[j]].dupOf == ks[cmds[i]].name {
+				continue // tagged data: unambiguous, any answer order
+			}
 			lastI, firstJ := -1, len(ord)
 			for pos, c := range ord {
 				if c == i {
@@ -1088,7 +1106,7 @@ func main() {
 	run.Set("work_items", int64(len(items)))
 	run.Set("command_kinds", int64(len(ks)))
 	run.Exhaustive = true
-	run.Rule = "scenario = (start state, pipeline of <=2 (3 thorough) pairwise-unambiguous commands from 32 kinds (NOOP, three STATUS incl. two names differing by case only, LIST, 4 FETCH forms, STORE, SEARCH, ESEARCH, EXPUNGE, SELECT, CAPABILITY, two APPEND forms, COPY, ENABLE, UNSELECT, SORT, THREAD, GETQUOTA, GETMETADATA, NAMESPACE; a second LIST / SEARCH / EXPUNGE / FETCH / UID SORT / GETQUOTAROOT only behind the first of its ambiguity class and answered in issue order), outcome per command in {OK, OK [code], NO, NO [code], BAD}, one interleaving of all response lines that keeps each command's own lines in order) or (context in {selected, authenticated, during a failing SELECT, during IDLE}, sequence of <=3 (4) unilateral responses from 9); each executed once on the real client (default schedule) with a state/mailbox comparison after every server line and a status/data comparison per command, then a final NOOP. states = scenarios, transitions = scheduling points, traces = executions"
+	run.Rule = "scenario = (start state, pipeline of <=2 (3 thorough) pairwise-unambiguous commands from 32 kinds (NOOP, three STATUS incl. two names differing by case only, LIST, 4 FETCH forms, STORE, SEARCH, ESEARCH, EXPUNGE, SELECT, CAPABILITY, two APPEND forms, COPY, ENABLE, UNSELECT, SORT, THREAD, GETQUOTA, GETMETADATA, NAMESPACE; a second LIST / SEARCH / EXPUNGE / FETCH / UID SORT / GETQUOTAROOT only behind the first of its ambiguity class and answered in issue order; a second ESEARCH behind the first one answered in any order since its data carries the tag; one FETCH answered in descending order), outcome per command in {OK, OK [code], NO, NO [code], BAD}, one interleaving of all response lines that keeps each command's own lines in order) or (context in {selected, authenticated, during a failing SELECT, during IDLE}, sequence of <=3 (4) unilateral responses from 9); each executed once on the real client (default schedule) with a state/mailbox comparison after every server line and a status/data comparison per command, then a final NOOP. states = scenarios, transitions = scheduling points, traces = executions"
 	run.Assume("while a SELECT is in flight the mailbox summary is not compared (the transcript does not determine it)")
 	run.Assume("a failed SELECT in selected state leaves no mailbox selected (RFC 9051 §6.3.2); BYE alone does not change the reported state")
 	run.Finish()
